@@ -29,8 +29,8 @@ var (
 	tagsL      = []string{"pets", "admin", "store", "misc"}
 	cfs        = []string{"", "csv", "pipes", "ssv", "tsv"}
 	strFormats = []string{"", "", "date", "date-time", "uuid", "password", "byte"}
-	intFormats = []string{"", "", "int32", "int64"}
-	numFormats = []string{"", "", "float", "double"}
+	intFormats = []string{"", "", "int32", "int64", "uint32"}
+	numFormats = []string{"", "", "float", "double", "decimal"}
 )
 
 type G struct {
